@@ -84,6 +84,7 @@ def run(ctx):
            "__hash__ depends on the coefficient table only" if ok else
            f"MultiVector.__hash__ reads {sorted(reads)} (or is memoized): equal "
            "multivectors (equal tables) may hash differently")
+    ctx.ob("S/ga/hash-independent-of-table-order", *_hash_order(hs, mv))
     # no zero coefficient is ever stored: every site that fills a result table
     # tests is_zero first (the products, the sum, the constructor)
     n_sites = 0
@@ -105,6 +106,119 @@ def run(ctx):
                "zero: truth-testing and equality (which compare the tables) "
                "then disagree with coefficient-wise comparison")
     ctx.floor("coefficient-table stores", n_sites, 3)
+    # ... and the constructor, whatever form its argument has (a scalar, a
+    # table keyed by bit patterns, a table keyed by index tuples, a vector):
+    # the table it keeps has been through a zero test on every path
+    init = mv.members["__init__"]
+    unfiltered = []
+    n_paths = 0
+    for ps in summarize(init.node, plain=True, loop_mode="01"):
+        if ps.term == "raise":
+            continue
+        for e in ps.events:
+            if e.kind == "attrwrite" and e.name == "data":
+                n_paths += 1
+                v = e.value
+                if v == ("litdict", (), ()):
+                    continue
+                tested = "is_zero" in repr(v) or any(
+                    "is_zero" in repr(c) for _, _, c in ps.conds)
+                if not tested:
+                    unfiltered.append(v)
+    ctx.floor("constructor paths that store the table", n_paths, 4)
+    forms = sorted({"a scalar" if v[0] == "litdict" else
+                    "the table as it was passed" if v[0] == "param" else
+                    "a vector's entries" for v in unfiltered})
+    ctx.ob("P/ga/__init__/no-zero-coefficients-kept", not unfiltered,
+           mv.loc(init.node),
+           "every form of the constructor's argument passes a zero test before "
+           "it is kept" if not unfiltered else
+           f"MultiVector.__init__ keeps {' / '.join(forms)} without dropping zero "
+           "coefficients: MultiVector(0, space) holds {0: 0}, so it is true, "
+           "differs from the empty multivector, and (a - a) == 0 is False")
+
+
+def _hash_order(hs, mv):
+    """__eq__ compares the coefficient tables as dicts, i.e. without regard to
+    the order in which the entries were inserted; equal multivectors come out
+    of different computations with different insertion orders.  The hash must
+    therefore combine the entries with an operation that does not care about
+    their order (xor / sum accumulated in a loop, reduce with such an operator,
+    a frozenset, a sorted sequence) -- not a tuple or list of the items as they
+    come."""
+    fn = hs.node
+    me = fn.args.args[0].arg
+    loc = mv.loc(fn)
+
+    def is_table(e):
+        return isinstance(e, ast.Attribute) and e.attr == "data" and \
+            isinstance(e.value, ast.Name) and e.value.id == me
+    uses = [x for x in ast.walk(fn) if is_table(x)]
+    if not uses:
+        return (False, loc, "MultiVector.__hash__ does not read the coefficient "
+                "table")
+    parents = {}
+    for p_ in ast.walk(fn):
+        for c_ in ast.iter_child_nodes(p_):
+            parents[c_] = p_
+    COMM = (ast.BitXor, ast.Add, ast.BitOr, ast.BitAnd, ast.Mult)
+    for u in uses:
+        # climb to the construct that consumes the iteration
+        x = u
+        verdict = None
+        while x in parents and verdict is None:
+            par = parents[x]
+            if isinstance(par, ast.For) and par.iter is x or (
+                    isinstance(par, ast.For) and any(
+                        y is x for y in ast.walk(par.iter))):
+                # every statement of the body that carries state over is a
+                # commutative update
+                ok = True
+                for st in ast.walk(par):
+                    if isinstance(st, ast.AugAssign) and not isinstance(
+                            st.op, COMM):
+                        ok = False
+                    if isinstance(st, ast.Call) and isinstance(
+                            st.func, ast.Attribute) and st.func.attr in (
+                            "append", "extend", "insert"):
+                        ok = False
+                verdict = ok
+            elif isinstance(par, ast.Call):
+                f = ast.unparse(par.func)
+                if f in ("frozenset", "sorted", "set", "sum"):
+                    verdict = True
+                elif f.split(".")[-1] == "reduce" and par.args:
+                    op = ast.unparse(par.args[0]).split(".")[-1]
+                    verdict = op in ("xor", "add", "or_", "and_", "mul",
+                                     "__xor__", "__add__")
+                elif f in ("tuple", "list", "hash", "repr", "str"):
+                    if f in ("tuple", "list", "repr", "str"):
+                        verdict = False
+                    # hash(<something>): keep climbing from the argument's
+                    # own consumer (handled on the way up)
+            elif isinstance(par, (ast.Tuple, ast.List)) or isinstance(
+                    par, ast.Starred):
+                if isinstance(par, ast.Starred) or any(
+                        y is x for y in par.elts):
+                    verdict = False if isinstance(par, ast.Starred) else None
+            elif isinstance(par, (ast.GeneratorExp, ast.ListComp, ast.SetComp)):
+                pass
+            elif isinstance(par, ast.FunctionDef):
+                break
+            x = par
+        if verdict is None:
+            raise AnalysisError("MultiVector.__hash__: how the coefficient "
+                                "table enters the hash is not a form the rule "
+                                "reads")
+        if not verdict:
+            return (False, loc,
+                    "MultiVector.__hash__ combines the entries of the "
+                    "coefficient table in the order the table happens to hold "
+                    "them: (A+B)*C and A*C + B*C are equal (their tables hold "
+                    "the same entries) but were filled in different orders, so "
+                    "they hash differently and miss each other in sets and "
+                    "dicts")
+    return (True, loc, "the entries are combined by a commutative operation")
 
 
 def _under_is_zero_test(fn, store):
